@@ -7,15 +7,15 @@ TECH = 'static analysis: rustc_private MIR fact extraction + repository-specific
 
 CLAIMED = {
     'C01': ('snapshot-table routing evaluated exhaustively over the tree constants, fan-out completeness, open-mode classification '
-            '(stream files truncated), start-up order on the call graph, codec field coverage, end-of-log detection predicate (truth table) and zero terminator',
+            '(stream files truncated), start-up order on the call graph, codec field coverage, end-of-log detection predicate (truth table), namespace snapshot filter and marker record, start-up restore independent of the last-applied index',
             'routing walk under each table constant, who-calls-whom order, typestate of OpenOptions chains, field sets', '3 C01'),
     'C02': ('index-area writer/rewinder agreement (taint), validated end-of-data test, acknowledgement edge-dominated by the awaited '
             'write result, contiguity guard, no discarded Result on the append chain, catalogue paired with log-list changes',
-            'taint + edge dominance + discard analysis + pairing', '3 C02'),
+            'taint + edge dominance + discard analysis + pairing; batch that fills the file, last term on reopen, durable split-off bound', '3 C02'),
     'C03': ('erasure of the removed data/index range on every success path of strip_log_to, rewind completeness against the write-set '
             'of write(), catalogue pairing, index-equality guard, recount honours count 0, cursors measured from the index entry of the cut point, adjacent-delta rewind, every listed log file is scanned', 'must-pass-through + field sets + pairing', '3 C03'),
     'C04': ('write ordering (data before index, flush before Ok, snapshot publication order), single-writer ownership table, '
-            'fresh-image layout, last-applied after apply, zero terminator after the last record, exclusive bound of the snapshot unlink loop', 'dominance / must-pass-through on MIR CFGs + who-may-call table', '3 C04'),
+            'fresh-image layout, last-applied after apply, recovery scan counts on every exit (else zero terminator), header before preallocation of a fresh log file, exclusive bound of the snapshot unlink loop', 'dominance / must-pass-through on MIR CFGs + who-may-call table', '3 C04'),
     'C05': ('save routing and funnel into write_index under ctx.wait, fresh-file threshold below the smallest record, exclusive '
             'ownership of catalogue fields, reader/writer field agreement of the DTO codec, membership/addresses of an installed snapshot reach the index file', 'pairing + constant comparison + field sets', '3 C05'),
     'C06': ('error discipline on the config commit chain only: no discarded Result from the route to Raft::client_write, every caller '
